@@ -87,7 +87,7 @@ PROPS = {
     },
     "C11": {
         "units": [
-            {"pkg": "./c11", "run": "TestC11Selection|TestC11Handshakes|TestC11SourceHistories|TestC11LoadOnceSource|TestC11FileSource", "shards": 4, "shards_thorough": 8, "timeout": 300},
+            {"pkg": "./c11", "run": "TestC11Selection|TestC11Handshakes|TestC11SourceHistories|TestC11LoadOnceSource|TestC11FileSource|TestC11VaultPKIRenewal", "shards": 4, "shards_thorough": 8, "timeout": 300},
             {"pkg": "./mainpkg", "run": "^TestC11", "shards": 2, "shards_thorough": 4, "timeout": 300},
             {"pkg": "./c11", "run": "TestC11ConcurrentReplacement", "race": True, "shards": 2, "shards_thorough": 4, "timeout": 300},
         ],
